@@ -33,6 +33,8 @@ type V struct {
 	S    string // scalar text as written (null: "null")
 	Keys []*V   // map keys (scalars)
 	Vals []*V   // map values or sequence elements
+	// Raw, when set on a document, is the YAML text it is written as (anchors, aliases and merge keys that the value does not show)
+	Raw string
 }
 
 func NullV() *V           { return &V{K: Null, S: "null"} }
@@ -235,6 +237,9 @@ func (v *V) JSON() string {
 // YAMLFlow is JSON() with map keys that are not strings left unquoted ({1: "a"}): read as YAML it gives the same value back,
 // key types included.
 func (v *V) YAMLFlow() string {
+	if v.Raw != "" {
+		return v.Raw
+	}
 	var sb strings.Builder
 	v.flow(&sb, true)
 	return sb.String()
